@@ -67,11 +67,11 @@ func (C15) Runs(tier string) int {
 func (C15) Meta() core.Meta {
 	return core.Meta{
 		Level: "fault_enumeration",
-		Rule: "a case = one process run of the real binary: operation (encrypt with -r/-R/-e -i, decrypt with -i incl. several identity files, keygen, keygen -y), key types (X25519, ssh-ed25519, ssh-rsa), armor, input size 0..3 chunks from file or pre-filled pipe, output to -o file / pipe / redirected file, damaged input (header flip, payload flip, truncation), pre-existing output, -o naming the input / an identity file / a recipients file under ./x, d/../x, absolute, and non-canonical absolute (/./, /d/../, //) spellings, and one output fault: RLIMIT_FSIZE=n (sweep runs: every n in 0..len(output)), missing parent directory, target is a directory, /dev/full, stdout pipe closed before start. Oracle: exit 0 => destination holds the complete result (decrypt: == P; encrypt: reference model decrypts it to the input; keygen: parseable key file, mode 0600; keygen -y: all recipient lines); no fault and valid input => exit 0; header-level refusal => -o neither created nor modified; payload failure => output is a prefix of P; same-file => refused, files intact; keygen -o existing => refused, intact. Non-trivial = a fault, damage, pre-existing or same-file condition is present; distinct = distinct plans.",
+		Rule: "a case = one process run of the real binary: operation (encrypt with -r/-R/-e -i, decrypt with -i incl. several identity files, keygen, keygen -y), key types (X25519, ssh-ed25519, ssh-rsa), armor, input size 0..3 chunks from file or pre-filled pipe, output to -o file / pipe / redirected file, damaged input (header flip, payload flip, truncation, truncation exactly at a chunk boundary), pre-existing output, -o naming the input / an identity file / a recipients file under ./x, d/../x, absolute, and non-canonical absolute (/./, /d/../, //) spellings, and one output fault: RLIMIT_FSIZE=n (sweep runs: every n in 0..len(output)), missing parent directory, target is a directory, /dev/full, stdout pipe closed before start. Oracle: exit 0 => destination holds the complete result (decrypt: == P; encrypt: reference model decrypts it to the input; keygen: parseable key file, mode 0600; keygen -y: all recipient lines); no fault and valid input => exit 0; header-level refusal => -o neither created nor modified; payload failure => output is a prefix of P; same-file => refused, files intact; keygen -o existing => refused, intact. Non-trivial = a fault, damage, pre-existing or same-file condition is present; distinct = distinct plans.",
 		Assumptions: []string{"kernel, file system and process scheduling are real and not controlled; nothing in the oracle depends on timing (pipes are pre-filled or closed before start)", "passphrase (-p / scrypt) flows need a terminal and are not exercised here", "runs as root: permission-denied destinations are not generated", "a death by signal (SIGXFSZ, SIGPIPE) counts as a non-zero status"},
 		Real:        []string{"cmd/age and cmd/age-keygen binaries built from the working tree", "Linux kernel: files, pipes, RLIMIT_FSIZE, /dev/full"},
 		Stub:        []string{"argv, environment, input files, identity/recipient files, file descriptors and limits (the plan)"},
-		FaultKinds:  []string{"fault.fsize", "fault.nodir", "fault.isdir", "fault.devfull", "fault.closedpipe", "fault.damage_header", "fault.damage_payload", "fault.damage_trunc", "fault.no_matching_identity"},
+		FaultKinds:  []string{"fault.fsize", "fault.nodir", "fault.isdir", "fault.devfull", "fault.closedpipe", "fault.damage_header", "fault.damage_payload", "fault.damage_trunc", "fault.damage_trunc_chunk", "fault.no_matching_identity"},
 		Probes:      []string{"probe.exit0_complete", "probe.exit_nonzero", "probe.killed_by_signal", "probe.same_file_refused", "probe.pre_existing_output", "probe.keygen_mode_checked", "probe.empty_plaintext", "probe.multi_chunk", "probe.fsize_limit_below_output", "probe.fsize_limit_at_or_above_output", "probe.header_refusal_output_untouched", "probe.partial_output_is_prefix", "probe.stdin_input", "probe.several_identity_files", "probe.dash_names"},
 	}
 }
@@ -115,7 +115,9 @@ func (C15) Generate(r *core.RNG, tier string, idx uint64) interface{} {
 	if p.Op == "decrypt" {
 		p.IdKey = r.Intn(len(p.Keys))
 		p.ExtraIDs = r.Pick(0, 0, 1, 2)
-		switch r.Intn(8) {
+		switch r.Intn(9) {
+		case 8:
+			p.Damage = "trunc_chunk"
 		case 0:
 			p.Damage = "header"
 		case 1:
@@ -457,6 +459,22 @@ func (e C15) one(p *C15Plan, fault OutFault, c *core.Ctx, ageBin, kgBin string, 
 			img[pos] ^= 1
 			if p.Armor && (img[pos] == '\n' || img[pos] == '=') {
 				img[pos] = 'B'
+			}
+			payloadFailure = true
+			validInput = false
+		case "trunc_chunk":
+			// the writer died right at a chunk boundary: the final chunk is missing entirely
+			bin := img
+			if p.Armor {
+				bin, _ = ref.Dearmor(string(img))
+			}
+			if l, err := lib.ParseLayout(bin, p.Keys[0]); err == nil {
+				full := (len(l.Payload) - 1) / ref.EncChunk // chunks before the last one
+				bin = bin[:l.HeaderLen+16+full*ref.EncChunk]
+			}
+			img = bin
+			if p.Armor {
+				img = []byte(ref.Armor(bin))
 			}
 			payloadFailure = true
 			validInput = false
